@@ -45,6 +45,10 @@ func commit(rootGoitPath string, index *store.Index, head *store.Head, conf *sto
 	var data []byte
 	branchPath := filepath.Join(rootGoitPath, "refs", "heads", head.Reference)
 	branchBytes, err := os.ReadFile(branchPath)
+	if err != nil && !os.IsNotExist(err) {
+		// the branch is there but cannot be read: this is not the initial commit
+		return fmt.Errorf("fail to read branch %s: %w", head.Reference, err)
+	}
 	author := object.NewSign(conf.GetUserName(), conf.GetEmail())
 	committer := author
 	if err != nil {
